@@ -64,6 +64,25 @@ def c13_precedence(tier="quick", seed=0):
 
 REJECT = ["(1", "[1, 2", "{ var a = 1;", "f(1, 2", "'abc", '"abc', "'abc\n'", "/* never closed", "var s = 'x' /* open", "1 = 2", "x + y = 3", "x++ = 2", "++1", "(a, b) = 1", "f() = 1", "1++",
           "var a = /abc", "if (x) { ", "function f( { }", "a ? b", "a ? b : ", "var 1a = 2", "x = = 2", "for (;;", "({a:1", "[1,,", "try { } ", "switch (x) { case }", "a b c )", "`unterminated"]
+def _invalid_targets():
+    """assignment / update expressions whose target is not a reference, under 0-3 redundant parentheses and inside the
+    places an expression can stand (ECMA-262 13.15.1 / 13.4.1 early errors: AssignmentTargetType must be simple)"""
+    targets = ["1", "x + y", "x++", "f()", "x, 2", "x == 5", "-x", "'s'", "null", "typeof x", "x = 1", "x ? y : z", "!x", "x && y", "new f", "function () {}", "x.y + 1", "++x"]
+    out = []
+    for t in targets:
+        for d in range(0, 4):
+            if d == 0 and t in ("x, 2", "x ? y : z", "x = 1", "function () {}"):
+                continue            # (without parentheses these group differently and are valid or a different error)
+            tt = "(" * d + t + ")" * d
+            forms = [f"{tt} = 3", f"{tt} += 3", f"{tt} >>>= 1", f"{tt}++", f"++{tt}", f"--{tt}"]
+            if d == 0:
+                forms = forms[:3]      # (x + y++ and ++x + y are valid: the update binds to one operand)
+            for fm in forms:
+                for ctx in ("{E};", "var r = ({E});", "var r = (({E}));", "[[{E}]];", "f({E});", "var r = [1, [2, {E}]];", "if ({E}) { }", "var o = {k: {E}};", "x = y = {E};", "(function () { return {E}; })();"):
+                    out.append("var x = 1, y = 2, z = 3; function f() { return {p: 1}; } " + ctx.replace("{E}", fm))
+    return out
+
+
 ACCEPT_SAME = [("1+2*3", " 1 +\t2 /*c*/ * // d\n 3 "), ("var a=[1,2,3];a[1]", "var a = [ 1 , 2 , 3 ] ;\n a [ 1 ]"), ("(function(x){return x*2})(4)", "( function ( x ) { return x * 2 } ) ( 4 )"),
                ("'a'+\"b\"", "(('a')) + ((\"b\"))"), ("0x1F+0b11+0o17+1e2+.5", "31 + 3 + 15 + 100 + 0.5"), ("'\\x41\\u0042\\n\\'\\\"'", "\"AB\\n'\\\"\""), ("1.50e+1", "15"), ("010 + 1", "11"),
                ("var x=5;x>3?'y':'n'", "var x = 5 ; ( ( x ) > ( 3 ) ) ? ( 'y' ) : ( 'n' )"), ("var o={a:{b:[1,{c:2}]}};o.a.b[1].c", "var o = { a : { b : [ 1 , { c : 2 } ] } } ; ( ( ( o . a ) . b ) [ 1 ] ) . c"),
@@ -81,7 +100,7 @@ def c13_bounded(tier="quick", seed=0):
     from microjs.errors import JSSyntaxError, JSError
     out = []
     notrej = []
-    for src in REJECT:
+    for src in REJECT + _invalid_targets():
         try:
             r = Context(time_limit=20).eval(src)
             notrej.append((src, f"accepted, evaluated to {r!r}"))
@@ -92,9 +111,11 @@ def c13_bounded(tier="quick", seed=0):
         except Exception as e:  # noqa
             notrej.append((src, f"host {type(e).__name__}: {str(e)[:60]}"))
     for src, why in notrej:
-        oid = "C13.bounded.reject." + "".join(ch if ch.isalnum() else "_" for ch in src)[:40]
+        import hashlib
+        short = src.split("} ", 1)[1] if src.startswith("var x = 1, y = 2, z = 3;") else src
+        oid = "C13.bounded.reject." + "".join(ch if ch.isalnum() else "_" for ch in short)[:40] + "." + hashlib.sha1(src.encode()).hexdigest()[:6]
         out.append(ob(oid, False, "B", f"{src!r}: {why}", witness=src, confirmed=True, domain=1, key=oid))
-    out.append(ob("C13.bounded.reject.rest", True, "B", f"{len(REJECT) - len(notrej)} malformed sources rejected with JSSyntaxError", domain=len(REJECT) - len(notrej)))
+    out.append(ob("C13.bounded.reject.rest", True, "B", f"{len(REJECT) + len(_invalid_targets()) - len(notrej)} malformed sources rejected with JSSyntaxError", domain=len(REJECT) + len(_invalid_targets()) - len(notrej)))
     for i, (a, b) in enumerate(ACCEPT_SAME):
         try:
             ra, rb = Context(time_limit=20).eval(a), Context(time_limit=20).eval(b)
@@ -174,6 +195,67 @@ def c13_bounded(tier="quick", seed=0):
 def _inside_regex(p, o):
     i = p.find("/a+b/")
     return i >= 0 and i < o < i + 5
+
+
+# ---- K4: string escapes, decided over all code units -----------------------------------------------------------------------
+@groups.group(id="C13.escapes", prop="C13", kind="K4", functions=["microjs.lexer:Lexer._read_string"])
+def c13_escapes(tier="quick", seed=0):
+    """ECMA-262 12.9.4: for EVERY BMP character c the literal '\\c' denotes -- the SingleEscapeCharacter table for
+    b f n r t v ' " \\; NUL for 0; nothing for a line terminator (LineContinuation); c itself otherwise -- and every
+    \\xHH (256) and \\uHHHH (65536) escape denotes that code unit, in both quote styles (exhaustive through the real lexer)"""
+    from microjs.lexer import Lexer
+    single = {"b": 8, "f": 12, "n": 10, "r": 13, "t": 9, "v": 11, "'": 39, '"': 34, "\\": 92, "0": 0}
+    special = set("xu123456789")
+    out = []
+
+    def strings(src):
+        return [t.value for t in Lexer(src).tokenize() if t.type.name == "STRING"]
+    bad = None
+    n = 0
+    for q in ("'", '"'):
+        chars = [chr(c) for c in range(0x10000) if chr(c) not in special and not 0xD800 <= c <= 0xDFFF]
+        for i in range(0, len(chars), 1000):
+            part = chars[i:i + 1000]
+            try:
+                got = strings("\n".join(q + "\\" + ch + "z" + q for ch in part))
+            except Exception as e:  # noqa
+                bad = bad or (f"{q}\\<U+{ord(part[0]):04X}..>{q}", f"{type(e).__name__}: {str(e)[:80]}")
+                continue
+            if len(got) != len(part):
+                bad = bad or (f"{q}\\<U+{ord(part[0]):04X}..>{q}", f"{len(got)} string tokens for {len(part)} literals")
+                continue
+            for ch, g in zip(part, got):
+                n += 1
+                if ch in single:
+                    want = chr(single[ch]) + "z"
+                elif ch in "\n\r\u2028\u2029":
+                    want = "z"
+                else:
+                    want = ch + "z"
+                if g != want and bad is None:
+                    bad = (f"{q}\\{ch}z{q} (U+{ord(ch):04X})", f"value {g!r}, ECMAScript {want!r}")
+    out.append(ob("C13.escapes.single-character", bad is None, "K4", f"{n} (character, quote) cases" if bad is None else f"{bad[0]}: {bad[1]}",
+                  witness=(bad[0] if bad else None), confirmed=True if bad else None, domain=n))
+    bad = None
+    n = 0
+    for q in ("'", '"'):
+        for kind, rng_ in (("x", range(256)), ("u", range(0x10000)), ("u{", range(0x10000))):
+            cps = [c for c in rng_]
+            lit = {"x": lambda c: f"\\x{c:02X}", "u": lambda c: f"\\u{c:04x}", "u{": lambda c: "\\u{" + f"{c:X}" + "}"}[kind]
+            for i in range(0, len(cps), 1000):
+                part = cps[i:i + 1000]
+                try:
+                    got = strings("\n".join(q + lit(c) + q for c in part))
+                except Exception as e:  # noqa
+                    bad = bad or (f"{q}{lit(part[0])}{q}...", f"{type(e).__name__}: {str(e)[:80]}")
+                    continue
+                for c, g in zip(part, got):
+                    n += 1
+                    if g != chr(c) and bad is None:
+                        bad = (f"{q}{lit(c)}{q}", f"value {g!r}, ECMAScript {chr(c)!r}")
+    out.append(ob("C13.escapes.hex-and-unicode", bad is None, "K4", f"{n} escapes (code points above U+FFFF are not judged: the engine documents strings as code-point sequences)" if bad is None else f"{bad[0]}: {bad[1]}",
+                  witness=(bad[0] if bad else None), confirmed=True if bad else None, domain=n))
+    return out
 
 
 # =======================================================================================================================
